@@ -115,6 +115,12 @@ class Markup:
                 return S(e.func.value)
             if f == 're.sub' and len(e.args) >= 3 and isinstance(e.args[0], ast.Constant) and isinstance(e.args[1], ast.Constant):
                 return S(e.args[2])
+            # the same through a module-level precompiled pattern: NAME = re.compile(<constant>...) ; NAME.sub(<constant>, text)
+            if isinstance(e.func, ast.Attribute) and e.func.attr == 'sub' and isinstance(e.func.value, ast.Name) and len(e.args) >= 2 \
+                    and isinstance(e.args[0], ast.Constant) and e.func.value.id in self.modnames:
+                c = self.modnames[e.func.value.id]
+                if isinstance(c, ast.Call) and src(c.func) == 're.compile' and c.args and isinstance(c.args[0], ast.Constant):
+                    return S(e.args[1])
             if isinstance(e.func, ast.Attribute) and e.func.attr == 'join' and isinstance(e.func.value, ast.Constant) and len(e.args) == 1:
                 g = e.args[0]
                 if isinstance(g, (ast.GeneratorExp, ast.ListComp)):
